@@ -76,6 +76,97 @@ contract(IHP, 'IndexHierarchy.__init__', key='IndexHierarchy.__init__[from-level
     ])
 
 
+# the refresh establishes coherence (ASSUMED: IndexLevel.to_type_blocks lists the tuples of the tree)
+contract(IHP, 'IndexHierarchy._update_array_cache', key='IndexHierarchy._update_array_cache',
+    props=['C05', 'C02'],
+    params=dict(self='IhSelfL'), order=['self'], modifies_self=True, result='none',
+    calls={'self._levels.to_type_blocks': dict(params={}, order=[], result='elem', ensures=['ube("coh", result, self._levels.lid)'])},
+    ensures=['not self._recache and not is_none(self._blocks)', 'ube("coh", self._blocks, self._levels.lid)', 'self._levels == old(self._levels)'])
+
+# growth flags the table stale (whatever the tree mutation did -- it may also raise, leaving the flag as it was)
+for _m, _arg in (('append', 'value'), ('extend', 'other')):
+    contract(IHP, f'IndexHierarchyGO.{_m}', key=f'IndexHierarchyGO.{_m}[stale-flag]',
+        props=['C05', 'C02', 'C09'],
+        params={'self': 'IhSelfL', _arg: ('elem' if _m == 'append' else 'IhSrc')}, order=['self', _arg], modifies_self=True, result='none',
+        calls={f'self._levels.{_m}': dict(params={}, order=['v'], result='none', ensures=['True'], raises={'Exception': 'maybe'})},
+        raises={'Exception': 'maybe'},
+        ensures=['self._recache', 'self._blocks == old(self._blocks)'])
+
+
+# copies: refreshed first, then handed to the constructor together with a copy of the table -- the constructor's precondition (the caller vouches that
+# the table lists the tuples of the tree, see [from-levels]) is an obligation here
+_CTOR = dict(params=dict(levels='IhLevel', name='opt[elem]', blocks='elem', own_blocks='bool'), order=[], kwonly=['levels', 'name', 'blocks', 'own_blocks'], result='IhSelfL',
+             requires=['ube("coh", blocks, levels.lid)'],
+             ensures=['not result._recache and not is_none(result._blocks)', 'ube("coh", result._blocks, result._levels.lid)',
+                      'forall_elem(lambda B: ube("coh", B, result._levels.lid) == ube("coh", B, levels.lid))'])
+for _cls in ('IndexHierarchy', 'IndexHierarchyGO'):
+    contract(IHP, f'{_cls}.__copy__', key=f'{_cls}.__copy__',
+        props=['C05', 'C02', 'C01'],
+        params=dict(self='IhSelfL'), order=['self'], modifies_self=True, result='IhSelfL',
+        call_alias={f'{_cls}._update_array_cache': 'IndexHierarchy._update_array_cache'},
+        requires=['implies(is_none(self._blocks), self._recache)', 'implies(not self._recache, ube("coh", self._blocks, self._levels.lid))'],
+        calls={
+            'self._blocks.copy': dict(params={}, order=[], result='elem', ensures=['forall_elem(lambda L: ube("coh", result, L) == ube("coh", self._blocks, L))']),
+            'self._levels.to_index_level': dict(params={}, order=[], result='IhLevel',
+                                                ensures=['result.depth == self._levels.depth', 'forall_elem(lambda B: ube("coh", B, result.lid) == ube("coh", B, self._levels.lid))']),
+            'self.__class__': _CTOR,
+        },
+        ensures=['not result._recache', 'ube("coh", result._blocks, result._levels.lid)',
+                 'forall_elem(lambda B: ube("coh", B, result._levels.lid) == ube("coh", B, old(self._levels.lid)))',
+                 # the receiver itself is left coherent and un-flagged
+                 'not self._recache and ube("coh", self._blocks, self._levels.lid)'])
+
+
+# positional selection / removal: made from a table that lists the tuples of the tree (refreshed first), with the receiver's name and level classes
+RECORDS['IhDerived'] = {'table': 'elem', 'name': 'opt[elem]', 'ctors': 'elem'}
+_FTB = dict(params=dict(tb='elem', name='opt[elem]', index_constructors='elem', own_blocks='bool'), order=['tb'], kwonly=['name', 'index_constructors', 'own_blocks'], result='IhDerived',
+            ensures=['result.table == tb and result.name == name and result.ctors == index_constructors'])
+_SEL_CALLS = {
+    'isinstance': dict(params={}, order=['o', 't'], result='bool', ensures=['not result']),          # the key is not a single integer (that form returns one tuple)
+    'self._levels.index_types': dict(params={}, order=[], result='elem', ensures=['result == ufe("index_types", self._levels.lid)']),
+    'tuple': dict(params=dict(x='elem'), order=['x'], result='elem', ensures=['result == ufe("astuple", x)']),
+    'self.__class__._from_type_blocks': _FTB,
+}
+_SEL_REQ = ['implies(is_none(self._blocks), self._recache)', 'implies(not self._recache, ube("coh", self._blocks, self._levels.lid))']
+contract(IHP, 'IndexHierarchy._extract_iloc', key='IndexHierarchy._extract_iloc[selection]',
+    props=['C05', 'C04', 'C02'],
+    params=dict(self='IhSelfL', key='elem'), order=['self', 'key'], modifies_self=True, result='IhDerived',
+    requires=_SEL_REQ,
+    calls=dict(_SEL_CALLS, **{'self._blocks._extract': dict(params=dict(row_key='elem'), order=[], kwonly=['row_key'], result='elem', ensures=['result == ufe("take_rows", self._blocks, row_key)'])}),
+    ensures=['not self._recache and ube("coh", self._blocks, self._levels.lid)',            # the table selected from lists the tuples of the tree
+             'result.table == ufe("take_rows", self._blocks, key)',
+             'result.name == self._name and result.ctors == ufe("astuple", ufe("index_types", self._levels.lid))',
+             'self._levels == old(self._levels)'])
+contract(IHP, 'IndexHierarchy._drop_iloc', key='IndexHierarchy._drop_iloc',
+    props=['C05', 'C08', 'C02'],
+    params=dict(self='IhSelfL', key='elem'), order=['self', 'key'], modifies_self=True, result='IhDerived',
+    requires=_SEL_REQ,
+    calls=dict(_SEL_CALLS, **{'self._blocks._drop_blocks': dict(params=dict(row_key='elem'), order=[], kwonly=['row_key'], result='elem', ensures=['result == ufe("drop_rows", self._blocks, row_key)']),
+                              'TypeBlocks.from_blocks': dict(params=dict(raw='elem'), order=['raw'], result='elem', ensures=['result == raw'])}),
+    ensures=['not self._recache and ube("coh", self._blocks, self._levels.lid)',
+             'result.table == ufe("drop_rows", self._blocks, key)',
+             'result.name == self._name and result.ctors == ufe("astuple", ufe("index_types", self._levels.lid))',
+             'self._levels == old(self._levels)'])
+
+
+# the array views are read off a table that lists the tuples of the tree (refreshed first when flagged stale)
+contract(IHP, 'IndexHierarchy.values', key='IndexHierarchy.values',
+    props=['C05', 'C02'],
+    params=dict(self='IhSelfL'), order=['self'], modifies_self=True, result='elem',
+    requires=_SEL_REQ,
+    elem_attrs={'values': 'values_of'},
+    concrete_inputs='specs.t2_ihinit:concrete_views', witness_on_unknown=True, requires_concrete=[], ensures_concrete=['ref_ih_view(self, result)'],
+    ensures=['not self._recache and ube("coh", self._blocks, self._levels.lid)', 'result == ufe("values_of", self._blocks)', 'self._levels == old(self._levels)'])
+contract(IHP, 'IndexHierarchy.values_at_depth', key='IndexHierarchy.values_at_depth[int]',
+    props=['C05', 'C02', 'C12'],
+    params=dict(self='IhSelfL', depth_level='int'), order=['self', 'depth_level'], defaults=dict(depth_level='0'), modifies_self=True, result='elem',
+    concrete_inputs='specs.t2_ihinit:concrete_views_depth', witness_on_unknown=True, requires_concrete=[], ensures_concrete=['ref_ih_view(self, result, depth_level)'],
+    requires=_SEL_REQ,
+    calls={'isinstance': dict(params={}, order=['o', 't'], result='bool', ensures=['result']),
+           'self._blocks._extract_array': dict(params=dict(column_key='int'), order=[], kwonly=['column_key'], result='elem', ensures=['result == ufe("column_of", self._blocks, column_key)'])},
+    ensures=['not self._recache and ube("coh", self._blocks, self._levels.lid)', 'result == ufe("column_of", self._blocks, depth_level)', 'self._levels == old(self._levels)'])
+
+
 def concrete_inputs(model):
     """sources in the states the counter-model distinguishes: cache never built / built and current / built and then outgrown (stale table kept)"""
     import static_frame as sf
@@ -90,3 +181,23 @@ def concrete_inputs(model):
             out.append(dict(self=target.__new__(target), levels=go))
         out.append(dict(self=target.__new__(target), levels=sf.IndexHierarchy.from_labels([('a', 1), ('b', 1)])))
     return out
+
+
+def _sources():
+    import static_frame as sf
+    for state in ('cold', 'warm', 'stale'):
+        go = sf.IndexHierarchyGO.from_labels([('a', 1), ('a', 2), ('b', 1)])
+        if state != 'cold':
+            go.values
+        if state == 'stale':
+            go.append(('b', 2))
+        yield go
+    yield sf.IndexHierarchy.from_labels([('a', 1), ('b', 1)])
+
+
+def concrete_views(model):
+    return [dict(self=h) for h in _sources()]
+
+
+def concrete_views_depth(model):
+    return [dict(self=h, depth_level=d) for d in (0, 1) for h in _sources()]
